@@ -9,6 +9,7 @@ mod heapmc;
 mod modmc;
 mod itermc;
 mod strmc;
+mod serdemc;
 mod workers;
 mod run;
 mod hostobj;
@@ -61,6 +62,7 @@ fn main() {
         "modmc" => modmc::run(&args),
         "itermc" => itermc::run(&args),
         "strmc" => strmc::run(&args),
+        "serdemc" => serdemc::run(&args),
         "progmc-core" => progmc::run_profile(
             &args,
             run::RunCfg::default(),
